@@ -10,10 +10,7 @@ use std::time::Duration;
 pub trait SimNet: Send + Sync {
     /// resolve a connection attempt: Some(phys) = connected, None = refused; the future may stay
     /// pending forever (connect timeout is then applied by the caller)
-    fn connect(
-        &self,
-        addr: SocketAddr,
-    ) -> Pin<Box<dyn Future<Output = Option<PhysLayer>> + Send>>;
+    fn connect(&self, addr: SocketAddr) -> Pin<Box<dyn Future<Output = Option<PhysLayer>> + Send>>;
 }
 
 /// H4: called right before every `Mutex::lock` of `DatabaseHandle`
@@ -55,7 +52,11 @@ pub(crate) async fn sim_connect(addr: SocketAddr, timeout: Option<Duration>) -> 
         Some(t) => match tokio::time::timeout(t, fut).await {
             Ok(x) => x,
             Err(_) => {
-                tracing::warn!("sim: unable to connect to {} within timeout of {:?}", addr, t);
+                tracing::warn!(
+                    "sim: unable to connect to {} within timeout of {:?}",
+                    addr,
+                    t
+                );
                 None
             }
         },
